@@ -78,7 +78,7 @@ def evaluate_proto_url(case):
 # ---------------------------------------------------------------------------------
 # builders
 
-BASES = ["http://a.com", "http://a.com/", "http://a.com/b", "http://a.com/b/", "a.com"]
+BASES = ["http://a.com", "http://a.com/", "http://a.com/b", "http://a.com/b/", "a.com", "http://a.com/b?q=1", "http://a.com/b#f0", "http://a.com/b/?q=1&r#f0"]
 PATHS = [None, "", "x", "/x", "x/y", "/x/", ["x", "y"], ["x", 1], ["/x", "y"], []]
 KEYS = ["k", "k y", "a&b", "é", "x=y", "#h", "?q", "%", "+", "k2"]
 VALUES = ["v", "v w", "&", "=", "#", "?", "%41", "+", "é", "", 0, 1, 1.5, True, False, None, 1.0, "1", 0.0]
@@ -129,8 +129,14 @@ def evaluate_fmt(case):
     if r[0] != "ok" or not isinstance(r[1], str):
         return [(PROP + ".fmt.total", "a string", list(r))], tags, None
     out = r[1]
-    exp_items = retained_items(exp_pairs)
-    if exp_items:
+    # a base url may come with a query and a fragment of its own: its items come first, its fragment stays unless another is given
+    full_base = base
+    base, _, b_frag = base.partition("#")
+    base, _, b_query = base.partition("?")
+    exp_items = refurl.den_query(b_query) + retained_items(exp_pairs) if b_query else retained_items(exp_pairs)
+    if fragment is None and "#" in full_base:
+        fragment = b_frag
+    if retained_items(exp_pairs):
         tags.append("has-args")
     # expected structure: <base joined path><.ext>[?query][#fragment]
     body = out
@@ -176,7 +182,8 @@ def c_items(items):
 
 # add_query_argument / get_query_argument
 AQ_BASES = ["http://a.com", "http://a.com/p", "http://a.com?x=1", "http://a.com/p?x=1&y", "http://a.com#f", "http://a.com?x=1#f",
-            "a.com", "http://a.com?", "http://a.com/p?x=%26&y=a%20b#f?g", "http://a.com?k=0"]
+            "a.com", "http://a.com?", "http://a.com/p?x=%26&y=a%20b#f?g", "http://a.com?k=0", "http://a.com/p#a#b", "http://a.com/p?a=1?",
+            "http://a.com/#/route#anchor", "http://a.com/p??"]
 AQ_GRID = grid.Grid("add_query_argument", [("base", AQ_BASES), ("key", KEYS), ("value", list(range(len(VALUES))))])
 
 
